@@ -2,8 +2,9 @@
 """Apply a seeded change to /repo, run the baseline tests, its demonstration and the property's check, then undo it.
 
 usage: tools/seedtest.py <seed-dir-name> [--no-tests]
-Reads seeded/<name>/patch.diff, demo.py (optional; run with DEMO_ROOT=/repo) and meta.json (property id).
-Never leaves /repo modified.
+Reads seeded/<name>/patch.diff, demo.py (optional; run with DEMO_ROOT=<tree>) and meta.json (property id).
+With SEED_REPO=<dir> the change is applied to a scratch git worktree of /repo at <dir> (created on demand, checks run with
+VERIF_REPO=<dir>) so that /repo itself stays untouched while other checks read it; without it /repo is patched and restored.
 """
 import json
 import os
@@ -11,7 +12,7 @@ import subprocess
 import sys
 
 VERIF = os.path.dirname(os.path.dirname(os.path.abspath(__file__)))
-REPO = '/repo'
+REPO = os.environ.get('SEED_REPO') or '/repo'
 
 
 def sh(cmd, **kw):
@@ -23,29 +24,34 @@ def main():
     d = os.path.join(VERIF, 'seeded', name)
     meta = json.load(open(os.path.join(d, 'meta.json')))
     pid = meta['property']
-    assert sh('git -C /repo status --porcelain --untracked-files=no').stdout.strip() == '', '/repo not clean'
+    if REPO != '/repo' and not os.path.isdir(REPO):
+        r = sh('git -C /repo worktree add --detach %s HEAD' % REPO)
+        assert r.returncode == 0, r.stderr
+    if REPO != '/repo':
+        sh('git -C %s checkout --detach -q %s' % (REPO, sh('git -C /repo rev-parse HEAD').stdout.strip()))
+    assert sh('git -C %s status --porcelain --untracked-files=no' % REPO).stdout.strip() == '', REPO + ' not clean'
     out = {}
     demo = os.path.join(d, 'demo.py')
     env = dict(os.environ, DEMO_ROOT=REPO)
     if os.path.exists(demo):
         out['demo_without'] = sh('/venv/bin/python %s' % demo, env=env, cwd=REPO).returncode
-    r = sh('git -C /repo apply %s' % os.path.join(d, 'patch.diff'))
+    r = sh('git -C %s apply %s' % (REPO, os.path.join(d, 'patch.diff')))
     if r.returncode != 0:
         print('patch does not apply:', r.stderr)
         return 2
     try:
         if '--no-tests' not in sys.argv:
-            t = sh('cd /repo && /venv/bin/python -m pytest -q -p no:cacheprovider auth/test/test_auth_utils.py 2>&1 | tail -1')
+            t = sh('cd ' + REPO + ' && /venv/bin/python -m pytest -q -p no:cacheprovider auth/test/test_auth_utils.py 2>&1 | tail -1')
             out['tests'] = t.stdout.strip()
         if os.path.exists(demo):
             out['demo_with'] = sh('/venv/bin/python %s' % demo, env=env, cwd=REPO).returncode
         checks = meta.get('checks', [pid])
         out['checks'] = {}
         for c in checks:
-            r = sh('python3-vt -m vc.check %s' % c, cwd=VERIF, env=dict(os.environ, VERIF_EVIDENCE_DIR=os.path.join(VERIF, '.build', 'seed-evidence')))
+            r = sh('python3-vt -m vc.check %s' % c, cwd=VERIF, env=dict(os.environ, VERIF_REPO=REPO, VERIF_EVIDENCE_DIR=os.path.join(VERIF, '.build', 'seed-evidence')))
             out['checks'][c] = {'exit': r.returncode, 'lines': [l for l in r.stdout.splitlines() if l.startswith(('VIOLATION', 'RESULT', 'UNDECIDED', 'CHECKER', 'KNOWN'))][:6]}
     finally:
-        sh('git -C /repo checkout -- .')
+        sh('git -C %s checkout -- .' % REPO)
     print(json.dumps(out, indent=1))
     meta['last_run'] = out
     json.dump(meta, open(os.path.join(d, 'meta.json'), 'w'), indent=1)
